@@ -71,7 +71,7 @@ class Angle(Reparameterisation):
         self.prime_parameters = [self.angle + "_x", self.angle + "_y"]
         self.requires = []
 
-        if prior in ["uniform", "sine"]:
+        if prior in ["uniform", "sine"] and self.chi:
             self.prior = prior
             self.has_prime_prior = True
             if self.prior == "uniform":
